@@ -23,7 +23,7 @@ R_GAS = 8.314472                       # the constants as documented in arrheniu
 KB_OVER_H = 2.083664399411865234375e10
 UB_TEMPLATES = ('arrhenius', 'eyring', 'eyringhs', 'gibbs', 'radiolytic', 'param_arr', 'param_eyr', 'ratex_arr', 'ratex_eyr')
 # reported to the coordinator (math.exp of an unsimplified kJ/J quantity); remove a name to activate its math-backend variant
-UNITS_PENDING_MATH = ('eyringhs', 'gibbs')
+UNITS_PENDING_MATH = ()
 DROPS = ('Poly', 'Piecewise', 'GibbsEqConst', 'EyringHS', 'Radiolytic')
 NEEDS_RXN = ('MassAction', 'Eyring', 'EyringHS')
 
@@ -310,7 +310,7 @@ class Gen:
             p = self.new('Eyring', args, 'F')
             if rng.random() < 0.08 and q_ok:
                 p[0]['args'] = None                  # Eyring.fk(...): defaults through Python's negative index
-                p[0]['uk'] = [self.var('k1')] if rng.random() < 0.4 else [self.var('k1'), self.var('k2')]
+                p[0]['uk'] = [self.var('k1'), self.var('k2')]   # (one key: argument 1 = the Quantity default of argument 2, `.simplified` -> not modelled)
             if c == 'MAEyr':
                 return {'t': 'new', 'k': {'c': 'MassAction'}, 'args': {'s': p[0]}, 'uk': None}, 'F'
             return p
@@ -1046,6 +1046,8 @@ class C16(Property):
             if kb == 0:
                 raise Skip('division by zero')
             return va / kb
+        if p['t'] == 'new' and p['k']['c'] == 'MassAction' and (p['uk'] is not None or p['args'] is None):
+            raise Skip('MassAction with unique keys in * / (UnaryWrapper: ValueError by design)')
         cp = self._concprod(vars_, rxn)
         v = M(p)
         if cp == 0:
